@@ -183,6 +183,7 @@ fn progress_vs_plain(ctx: &Ctx) {
 
 fn progress_vs_plain_inner(ctx: &Ctx) {
     for seed in [7u64, 42] {
+        super::c10::reset_bounded_pub();
         let case = json!({"part": "progress", "seed": seed});
         ctx.evals(1);
         // MH
